@@ -10,7 +10,9 @@ import vlib
 
 HARNESSES = ("auth_h",)
 MLS = ("auth",)
-THEOREMS = []
+THEOREMS = ["C08_do_work_total", "C08_identity_invariant", "C08_authenticated_only_after_valid_exchange", "C08_no_data_before_begin",
+            "C08_bounded_rejections", "C08_buffer_bound", "C08_transport_gate", "C08_anonymous_only_if_enabled",
+            "C08_responses_partial", "C08_responses_partial_run", "C08_responses_refuted_odd_hex", "C08_responses_refuted_abort"]
 
 PUID = os.getuid()
 DEFAULT_CTX = b"org_freedesktop_general"
@@ -490,52 +492,615 @@ def common_part(res):
     return p["steps"], (e.get("rc"), e.get("id"), e.get("unused"), e.get("fdneg"))
 
 
-def run(ctx):
+MAX_BUFFER = 16384
+KNOWN_MECHS = [b"EXTERNAL", b"DBUS_COOKIE_SHA1", b"ANONYMOUS"]
+
+
+def load_known():
+    k = vlib.load_known("C08")
+    if not k:
+        # entries proposed by this package, not merged into known-findings.json yet
+        f = os.path.join(vlib.VERIF, "notes", "C08.findings.json")
+        if os.path.exists(f):
+            k = [e for e in json.load(open(f)) if e.get("property") == "C08" and e.get("status") == "known"]
+    return {e["id"]: e for e in k}
+
+
+def fed_bytes(c, p):
+    fed = list(p["fed"])
+    out = []
+    for s in c["steps"]:
+        if s[0] == "F":
+            out.append(s[1])
+        elif s[0] == "R":
+            out.append(unhx(fed.pop(0)) if fed else b"")
+    return out
+
+
+def kinds_of_output(total, c):
+    """classify the lines the implementation sent; None if a line is not one the protocol knows"""
+    ks = []
+    allowed = [m for m in KNOWN_MECHS if c["mechs"] == "*" or m.decode() in c["mechs"].split(".")]
+    if total and not total.endswith(b"\r\n"):
+        return None
+    for line in total.split(b"\r\n")[:-1]:
+        if line.startswith(b"REJECTED"):
+            if line != b"REJECTED" + b"".join(b" " + m for m in allowed):
+                return None
+            ks.append("R")
+        elif line.startswith(b"OK "):
+            if not re.fullmatch(rb"OK [0-9a-f]{32}", line):
+                return None
+            ks.append("O")
+        elif line.startswith(b"ERROR"):
+            ks.append("E")
+        elif line == b"DATA":
+            ks.append("D-")
+        elif line.startswith(b"DATA "):
+            ks.append("D" + line[5:].decode("latin-1"))
+        elif line == b"AGREE_UNIX_FD":
+            ks.append("A")
+        else:
+            return None
+    return ks
+
+
+def spec_line(c, p, ml):
+    """specm input: the same environment, the complete lines in the order they arrived"""
+    stream = b"".join(fed_bytes(c, p))
+    lines = stream.split(b"\r\n")
+    tail = lines.pop()
+    env = ml.split(" steps=")[0].replace("authm ", "specm ", 1)
+    return env + " lines=" + ("/".join(hx(l) if l else "_" for l in lines) or "-"), lines, tail
+
+
+def oracle(c, p, sres, lines):
+    """compare what the implementation did with what the specification prescribes (line level).
+    -> (ok, text, oddhex)"""
+    toks = sres.split()
+    i = toks.index("end")
+    spec_kinds = []
+    stop = None
+    for n, t in enumerate(toks[:i]):
+        if t != "-":
+            spec_kinds += [("D-" if k == "D-" else k) for k in t.split(",")]
+    phase = toks[i + 1]
+    extra = dict(kv.split("=") for kv in toks[i + 2:])
+    total = produced_output(c, p)
+    # the final drain of the harness does not produce output
+    ik = kinds_of_output(total, c)
+    if ik is None:
+        return False, "implementation sent a line the protocol does not know: %r" % total[-200:], int(extra.get("oddhex", 0))
+    sk = [k if not k.startswith("D") else ("D-" if k in ("D-", "D") else k) for k in spec_kinds]
+    end = p["end"]
+    if ik != sk:
+        return False, "responses %s, specification prescribes %s" % (ik[:12], sk[:12]), int(extra.get("oddhex", 0))
+    if phase.startswith("Authenticated:"):
+        if end["rc"] != "A":
+            return False, "specification: authenticated, implementation end state %s" % end["rc"], int(extra.get("oddhex", 0))
+        if end["id"] != phase.split(":", 1)[1]:
+            return False, "identity seen by the application %s, specification %s" % (end["id"], phase), int(extra.get("oddhex", 0))
+    elif end["rc"] == "A":
+        return False, "implementation authenticated, specification phase %s" % phase, int(extra.get("oddhex", 0))
+    elif (phase == "Disconnect") != (end["rc"] == "D"):
+        return False, "implementation end state %s, specification phase %s" % (end["rc"], phase), int(extra.get("oddhex", 0))
+    stop = int(extra.get("stop", -1))
+    if end["rc"] in "AD" and stop >= 0:
+        stream = b"".join(fed_bytes(c, p))
+        off = sum(len(l) + 2 for l in lines[:stop + 1])
+        if unhx(end["unused"] if end["unused"] != "N" else "-") != stream[off:]:
+            return False, "bytes handed over as message data %r..., bytes that followed the final line %r..." % (
+                unhx(end["unused"] if end["unused"] != "N" else "-")[:40], stream[off:off + 40]), int(extra.get("oddhex", 0))
+    if end["fdneg"] != extra.get("fd"):
+        return False, "fd negotiation flag %s, specification %s" % (end["fdneg"], extra.get("fd")), int(extra.get("oddhex", 0))
+    return True, "", int(extra.get("oddhex", 0))
+
+
+def small_enough(c, p):
+    """no buffer cap can be involved: everything ever buffered stays below MAX_BUFFER"""
+    return sum(len(b) for b in fed_bytes(c, p)) <= MAX_BUFFER and len(produced_output(c, p)) <= MAX_BUFFER
+
+
+def buffer_oracle(c, p):
+    """property text: 'buffers no more than a fixed amount of handshake data': after a read the server either gave up
+    or holds at most MAX_BUFFER unprocessed bytes; and it gives up after a bounded number of rejections"""
+    pending = b""
+    k = 0
+    fed = list(p["fed"])
+    for s in c["steps"]:
+        if k >= len(p["steps"]):
+            break
+        rc = p["steps"][k][0]
+        k += 1
+        if s[0] == "F" or s[0] == "R":
+            pending += s[1] if s[0] == "F" else (unhx(fed.pop(0)) if fed else b"")
+            if rc in "DA":
+                return None
+            j = pending.rfind(b"\r\n")
+            if j >= 0 and len(pending) <= MAX_BUFFER:
+                pending = pending[j + 2:]
+            if len(pending) > MAX_BUFFER + 0 and rc not in "DA" and b"\r\n" not in pending:
+                return "server still accepts input while holding %d unprocessed handshake bytes" % len(pending)
+    rej = produced_output(c, p).count(b"REJECTED")
+    if rej > 6 or (rej == 6 and p["end"]["rc"] != "D"):
+        return "%d REJECTED lines sent and end state %s" % (rej, p["end"]["rc"])
+    return None
+
+
+ASSERT_TEXT = "_dbus_string_skip_blank"
+
+
+def check_case(rep, known, c, r, p, ml, m, sres, lines, stats):
+    """verdict rules for one case that ran to completion on both sides"""
+    agree = common_part(r) == common_part(m)
+    replay = {"impl_input": impl_line(c), "model_input": ml, "impl": r, "model": m, "spec": sres}
+    bo = buffer_oracle(c, p)
+    if bo:
+        rep.violation("buffer/rejection bound broken on %s: %s" % (impl_line(c)[:300], bo), replay)
+        return
+    if sres is not None:
+        ok, why, oddhex = oracle(c, p, sres, lines)
+    else:
+        ok, why, oddhex = True, "", 0
+    if agree:
+        if not ok:
+            if oddhex and "F08b" in known:
+                rep.known(known["F08b"], impl_line(c)[:200])
+                stats["F08b"] = stats.get("F08b", 0) + 1
+            else:
+                rep.violation("code and model agree but the specification differs on %s: %s" % (impl_line(c)[:300], why), replay)
+        return
+    stats["disagree"] = stats.get("disagree", 0) + 1
+    if sres is not None and not ok and not oddhex:
+        rep.violation("implementation departs from the specified handshake on %s: %s (model: %s)" % (impl_line(c)[:400], why, m[-160:]), replay)
+    else:
+        replay["names"] = "correspondence auth_h vs Auth.Server.step"
+        rep.violation("implementation and model disagree on %s: impl `%s` model `%s`" % (impl_line(c)[:300], r[:300], m[:300]), replay, found_input=False)
+
+
+def run_leg1(ctx, cases, known, stats):
     rep, tier, info = ctx["rep"], ctx["tier"], ctx["info"]
-    rnd = random.Random(ctx["seed"])
     asserts = build_asserts(info)
-    cases = []
-    for f in sorted(glob.glob(os.path.join(vlib.VERIF, "corpus", "C08", "*.json"))):
-        for c in json.load(open(f)):
-            c["steps"] = [tuple(unhx(x) if isinstance(x, str) and i in (1, 2) and s[0] in "FR" else x for i, x in enumerate(s)) for s in c["steps"]]
-            c["ctx"] = None if c.get("ctx") is None else unhx(c["ctx"])
-            c["keys"] = [tuple(k) for k in c.get("keys", [])]
-            cases.append(c)
-    cases += gen_identity(rnd, tier) + gen_cookie(rnd, tier) + gen_boundary(rnd, tier) + gen_crashy(rnd, tier) + gen_chunkings(rnd, tier)
-    cases += gen_exhaustive(tier) + gen_random(rnd, tier)
     batch = [c for c in cases if not may_abort(c)]
     single = [c for c in cases if may_abort(c)]
     if tier == "quick":
-        single = single[:400]
-    t0 = time.time()
+        single = single[:160]
     impl, icr = vlib.run_lines(info["auth_h"], [impl_line(c) for c in batch])
     for line, err in icr:
-        rep.violation("implementation crashed / sanitizer report on input `%s`: %s" % (line[:300], err[-700:]), {"input": line, "stderr": err})
-    mlines = []
-    parsed = []
-    for c, r in zip(batch, impl):
-        p = parse_impl(r) if r != "!CRASH" else None
+        rep.violation("implementation crashed / sanitizer report on input `%s`: %s" % (line[:300], err[-700:]), {"impl_input": line, "stderr": err})
+    # --- cases that may trip the assertion: one process each
+    from concurrent.futures import ThreadPoolExecutor
+    with ThreadPoolExecutor(max_workers=max(2, vlib.NPROC)) as ex:
+        sres = list(ex.map(lambda c: run_single(info["auth_h"], impl_line(c)), single))
+    all_cases = batch + single
+    results = list(impl) + [o.strip().split("\n")[0] if rc == 0 else "!ABORT " + o.strip() for (o, rc, err) in sres]
+    errs = [None] * len(batch) + [err if rc != 0 else None for (o, rc, err) in sres]
+    parsed, mlines, slines, slists = [], [], [], []
+    for c, r in zip(all_cases, results):
+        if r == "!CRASH":
+            parsed.append(None); mlines.append(""); slines.append(""); slists.append(None)
+            continue
+        aborted = r.startswith("!ABORT")
+        p = parse_impl(r[7:] if aborted else r)
+        p["aborted"] = aborted
         parsed.append(p)
-        mlines.append(model_line(c, p, asserts)[0] if p and p["end"] else "")
+        if not aborted and not p["end"]:
+            mlines.append(""); slines.append(""); slists.append(None)
+            continue
+        ml = model_line(c, p, asserts)[0]
+        mlines.append(ml)
+        if not aborted and small_enough(c, p):
+            sl, lines, tail = spec_line(c, p, ml)
+            slines.append(sl); slists.append(lines)
+        else:
+            slines.append(""); slists.append(None)
     model, mcr = vlib.run_lines(info["model_auth"], mlines)
-    for line, err in mcr:
-        rep.violation("extracted model failed on `%s`: %s" % (line[:300], err[-300:]), {"input": line, "names": "model driver"}, found_input=False)
-    dist, nontrivial, ndis = {}, set(), 0
-    for c, r, p, ml, m in zip(batch, impl, parsed, mlines, model):
-        if p is None or not p["end"] or not ml:
+    spec, scr = vlib.run_lines(info["model_auth"], slines)
+    for line, err in mcr + scr:
+        rep.violation("extracted model failed on `%s`: %s" % (line[:300], err[-300:]), {"model_input": line, "names": "model driver"}, found_input=False)
+    dist, nontrivial = {}, set()
+    for c, r, p, ml, m, sl, sr, lines, err in zip(all_cases, results, parsed, mlines, model, slines, spec, slists, errs):
+        if p is None or not ml:
             continue
         dist[c["tag"]] = dist.get(c["tag"], 0) + 1
-        if m.startswith("?") or m == "!CRASH":
-            rep.violation("model driver failed: %s on %s" % (m, ml[:200]), {"model_input": ml, "names": "model driver"}, found_input=False)
+        if m.startswith("?") or m == "!CRASH" or (sl and (sr.startswith("?") or sr == "!CRASH")):
+            rep.violation("model driver failed: %s / %s on %s" % (m[:100], sr[:100], ml[:200]), {"model_input": ml, "names": "model driver"}, found_input=False)
             continue
-        if common_part(r) != common_part(m):
-            ndis += 1
-            rep.violation("implementation and model disagree on %s: impl `%s` model `%s`" % (impl_line(c)[:300], r[:300], m[:300]),
-                          {"impl_input": impl_line(c), "model_input": ml, "impl": r, "model": m, "names": "correspondence auth_h vs Auth.Server.step"},
-                          found_input=False)
+        pm = parse_impl(m)
+        if p["aborted"]:
+            # the process died: the model must say so at the same step, and only the known assertion may be the cause
+            k = len(p["steps"])
+            mod_abort = k < len(pm["steps"]) and pm["steps"][k][0] == "X" and all(x[0] != "X" for x in pm["steps"][:k])
+            same_prefix = p["steps"] == pm["steps"][:k]
+            if ASSERT_TEXT in (err or "") and mod_abort and same_prefix and "F08a" in known:
+                rep.known(known["F08a"], impl_line(c)[:200])
+                stats["F08a"] = stats.get("F08a", 0) + 1
+            elif ASSERT_TEXT in (err or "") and "F08a" in known:
+                rep.violation("implementation aborted in _dbus_string_skip_blank but the model does not predict it there: %s" % impl_line(c)[:300],
+                              {"impl_input": impl_line(c), "model_input": ml, "impl": r, "model": m, "names": "correspondence (abort class) auth_h vs Auth.Server.skip_blank"}, found_input=False)
+            else:
+                rep.violation("implementation crashed / sanitizer report on input `%s`: %s" % (impl_line(c)[:300], (err or "")[-700:]),
+                              {"impl_input": impl_line(c), "stderr": err})
+            continue
+        if any(x[0] == "X" for x in pm["steps"]) or (pm["end"] or {}).get("rc") == "X":
+            rep.violation("model predicts an assertion failure but the implementation survived: %s" % impl_line(c)[:300],
+                          {"impl_input": impl_line(c), "model_input": ml, "impl": r, "model": m, "names": "correspondence (abort class) auth_h vs Auth.Server.skip_blank"}, found_input=False)
+            continue
+        check_case(rep, known, c, r, p, ml, m, sr if sl else None, lines, stats)
         if p["end"]["rc"] == "A":
             nontrivial.add(impl_line(c))
-    log_t = time.time() - t0
+        elif sl:
+            nontrivial.add("n:" + sl.split(" lines=")[1] + c["mechs"])
+    stats["batch"] = len(batch); stats["single"] = len(single)
+    stats["spec_checked"] = sum(1 for s_ in slines if s_)
     cleanup_tmp()
-    rep.coverage.update({"evaluations": len(cases), "distinct_nontrivial": len(nontrivial), "input_distribution": dist,
-                         "traces_validated_against_impl": len(batch), "disagreements_checked": ndis, "leg1_s": round(log_t, 1)})
+    return dist, nontrivial, len(all_cases)
+
+
+# ---------------------------------------------------------------------------
+# leg 2: the running daemon (transport admission, no message before BEGIN)
+# ---------------------------------------------------------------------------
+def daemon_scripts(rnd, tier):
+    """(name, daemon flavour, list of byte strings to send one by one, send Hello afterwards?)"""
+    me = h(str(PUID))
+    other = h(str(PUID + 1000))
+    hello = None  # filled in by the runner (needs rawbus)
+    S = []
+    ok = b"AUTH EXTERNAL " + me + b"\r\n"
+    S.append(("valid", "default", [ok, b"BEGIN\r\n"]))
+    S.append(("valid-empty-identity", "default", [b"AUTH EXTERNAL\r\n", b"DATA\r\n", b"BEGIN\r\n"]))
+    S.append(("valid-fd", "default", [ok, b"NEGOTIATE_UNIX_FD\r\n", b"BEGIN\r\n"]))
+    S.append(("pipelined", "default", [ok + b"NEGOTIATE_UNIX_FD\r\nBEGIN\r\n"]))
+    S.append(("other-uid", "default", [b"AUTH EXTERNAL " + other + b"\r\n", b"BEGIN\r\n"]))
+    S.append(("other-uid-then-valid", "default", [b"AUTH EXTERNAL " + other + b"\r\n", ok, b"BEGIN\r\n"]))
+    S.append(("begin-first", "default", [b"BEGIN\r\n"]))
+    S.append(("no-begin", "default", [ok]))
+    S.append(("ok-cancel-begin", "default", [ok, b"CANCEL\r\n", b"BEGIN\r\n"]))
+    S.append(("ok-cancel-anon", "default", [ok, b"CANCEL\r\n", b"AUTH ANONYMOUS\r\n", b"BEGIN\r\n"]))
+    S.append(("anon-not-enabled", "default", [b"AUTH ANONYMOUS\r\n", b"BEGIN\r\n"]))
+    S.append(("anon-enabled", "anon", [b"AUTH ANONYMOUS\r\n", b"BEGIN\r\n"]))
+    S.append(("anon-enabled-after-ok", "anon", [ok, b"ERROR\r\n", b"AUTH ANONYMOUS 61\r\n", b"BEGIN\r\n"]))
+    S.append(("anon-not-permitted", "external-only", [b"AUTH ANONYMOUS\r\n", ok, b"BEGIN\r\n"]))
+    S.append(("cookie-not-permitted", "external-only", [b"AUTH DBUS_COOKIE_SHA1 " + me + b"\r\n", b"BEGIN\r\n"]))
+    S.append(("six-rejections", "default", [b"AUTH\r\n"] * 6 + [ok]))
+    S.append(("five-rejections", "default", [b"AUTH\r\n"] * 5 + [ok, b"BEGIN\r\n"]))
+    S.append(("junk", "default", [b"FOO\r\n", b"\xff\r\n", b"DATA 30\r\n", ok, b"DATA\r\n", b"AUTH\r\n", b"BEGIN\r\n"]))
+    S.append(("hello-before-begin", "default", [ok, "HELLO", b"BEGIN\r\n"]))
+    S.append(("hello-line-before-begin", "default", [ok, "HELLO", b"\r\n", b"BEGIN\r\n"]))
+    S.append(("hello-before-auth", "default", ["HELLO", b"\r\n", ok, b"BEGIN\r\n"]))
+    S.append(("odd-hex", "default", [b"AUTH EXTERNAL " + me + b"0"[:0] + b"\r\n", b"BEGIN\r\n"] if False else [b"AUTH EXTERNAL 3\r\n", b"BEGIN\r\n"]))
+    S.append(("cookie", "cookie", [b"AUTH DBUS_COOKIE_SHA1 " + me + b"\r\n", ("R", b" ", b"daemonleg", "ok", None), b"BEGIN\r\n"]))
+    S.append(("cookie-wrong", "cookie", [b"AUTH DBUS_COOKIE_SHA1 " + me + b"\r\n", ("R", b" ", b"daemonleg", "flip", None), b"BEGIN\r\n"]))
+    S.append(("cookie-other-user", "cookie", [b"AUTH DBUS_COOKIE_SHA1 " + other + b"\r\n", b"BEGIN\r\n"]))
+    S.append(("big-line", "default", [b"A" * 9000, b"A" * 9000, b"\r\n" + ok]))
+    n = 12 if tier == "quick" else 200
+    al = [ok, b"AUTH EXTERNAL " + other + b"\r\n", b"AUTH\r\n", b"CANCEL\r\n", b"ERROR\r\n", b"BEGIN\r\n", b"NEGOTIATE_UNIX_FD\r\n", b"DATA\r\n",
+          b"AUTH EXTERNAL\r\n", b"AUTH ANONYMOUS\r\n", b"X\r\n", b"DATA " + me + b"\r\n"]
+    for i in range(n):
+        S.append(("random%d" % i, rnd.choice(("default", "anon", "external-only")), [rnd.choice(al) for _ in range(rnd.choice((2, 3, 4, 6, 9)))]))
+    return S
+
+
+FLAVOURS = {"default": "", "anon": "<allow_anonymous/>", "external-only": "<auth>EXTERNAL</auth>", "cookie": "<auth>DBUS_COOKIE_SHA1</auth>"}
+FLAVOUR_MECHS = {"default": "*", "anon": "*", "external-only": "EXTERNAL", "cookie": "DBUS_COOKIE_SHA1"}
+
+
+def read_lines(sock, n, timeout=3.0):
+    """read until n CRLF-terminated lines have arrived, EOF, or timeout; -> (lines, rest, eof)"""
+    import select
+    buf = b""
+    eof = False
+    t_end = time.time() + timeout
+    while buf.count(b"\r\n") < n and not eof:
+        left = t_end - time.time()
+        if left <= 0:
+            break
+        r, _, _ = select.select([sock], [], [], left)
+        if not r:
+            break
+        try:
+            d = sock.recv(65536)
+        except OSError:
+            d = b""
+        if not d:
+            eof = True
+        buf += d
+    parts = buf.split(b"\r\n")
+    return parts[:-1], parts[-1], eof
+
+
+def run_leg2(ctx, known, stats):
+    import socket, tempfile
+    sys.path.insert(0, os.path.join(vlib.VERIF, "harness", "py"))
+    import rawbus
+    rep, tier, info = ctx["rep"], ctx["tier"], ctx["info"]
+    rnd = random.Random(ctx["seed"] + 8)
+    asserts = build_asserts(info)
+    scripts = daemon_scripts(rnd, tier)
+    hello = rawbus.Msg(rawbus.METHOD_CALL, 0, 1, {rawbus.F_PATH: "/org/freedesktop/DBus", rawbus.F_MEMBER: "Hello",
+                                                  rawbus.F_INTERFACE: "org.freedesktop.DBus", rawbus.F_DESTINATION: "org.freedesktop.DBus"}).encode()
+    home = tempfile.mkdtemp(prefix="verif_c08_home_")
+    daemons = {}
+    n_ok = 0
+    try:
+        for fl, auth in FLAVOURS.items():
+            daemons[fl] = rawbus.Daemon(info["daemon"], auth=auth, env={"DBUS_TEST_HOMEDIR": home})
+        for name, fl, steps in scripts:
+            d = daemons[fl]
+            if not d.alive():
+                rep.violation("daemon died before script %s: %s" % (name, d.stderr()[-600:]), {"script": name})
+                break
+            sk = socket.socket(socket.AF_UNIX, socket.SOCK_STREAM)
+            sk.connect(d.sock)
+            sk.sendall(b"\0")
+            got = []          # response lines, in order
+            sent = []         # concrete bytes, one entry per step
+            eof = False
+            env = dict(uid=PUID, pid=os.getpid(), gids=None, mechs=FLAVOUR_MECHS[fl], fdp=1, ctx=None, keys=[], kdir="ok", steps=[], tag="daemon")
+            expected_total = 0
+            mres = None
+            for st in steps:
+                if st == "HELLO":
+                    data = hello
+                elif isinstance(st, tuple):
+                    # cookie response from the last DATA line, cookie read from the keyring file like a client does
+                    ch = challenges(b"".join(l + b"\r\n" for l in got))
+                    if not ch:
+                        data = b"DATA\r\n"
+                    else:
+                        cid, chal, cctx = ch[-1]
+                        secret = ""
+                        try:
+                            for ln in open(os.path.join(home, ".dbus-keyrings", cctx.decode())):
+                                f = ln.split()
+                                if len(f) == 3 and int(f[0]) == cid:
+                                    secret = f[2]
+                        except OSError:
+                            pass
+                        hh = hashlib.sha1(chal.encode() + b":" + st[2] + b":" + secret.encode()).hexdigest()
+                        if st[3] == "flip":
+                            hh = hh[:-1] + ("1" if hh[-1] == "0" else "0")
+                        data = b"DATA " + (st[2] + st[1] + hh.encode()).hex().encode() + b"\r\n"
+                else:
+                    data = st
+                sent.append(data)
+                # what does the model expect after this much input?  (the daemon always writes out what it has)
+                env["steps"] = [x for dd in sent for x in (("F", dd), ("S", None))]
+                pseudo = {"fed": [], "steps": [], "end": {"keyfile": "-"}}
+                ch = challenges(b"".join(l + b"\r\n" for l in got))
+                ml = model_line(env, pseudo, asserts)[0]
+                # environment the daemon showed us: challenges and the cookie it created
+                cookies = {}
+                try:
+                    for cctx in set(x[2] for x in ch):
+                        for ln in open(os.path.join(home, ".dbus-keyrings", cctx.decode())):
+                            f = ln.split()
+                            if len(f) == 3:
+                                cookies[int(f[0])] = f[2]
+                except OSError:
+                    pass
+                ml = re.sub(r" best=\S+", " best=" + ("/".join(str(x[0]) for x in ch) or "-"), ml)
+                ml = re.sub(r" chals=\S+", " chals=" + ("/".join(x[1] for x in ch) or "-"), ml)
+                ml = re.sub(r" cookies=\S+", " cookies=" + ("/".join("%d:%s" % kv for kv in sorted(cookies.items())) or "-"), ml)
+                # a challenge the daemon has not issued yet cannot be known: run the model twice if needed
+                mres = vlib.run_one(info["model_auth"], ml)[0]
+                pm = parse_impl(mres)
+                mtotal = produced_output(env, pm)
+                want = mtotal.count(b"\r\n")
+                if b"DBUS_COOKIE_SHA1" in data and data.startswith(b"AUTH") and fl == "cookie" and len(ch) < 1 + len([x for x in sent[:-1] if x.startswith(b"AUTH DBUS_COOKIE")]):
+                    want = len(got) + 1      # the challenge line itself is environment: read it, then re-run the model with it
+                try:
+                    sk.sendall(data)
+                except OSError:
+                    eof = True
+                if not eof:
+                    lines, rest, eof = read_lines(sk, want - len(got)) if want > len(got) else ([], b"", False)
+                    got += lines
+            # final comparison against the model on the complete input
+            ch = challenges(b"".join(l + b"\r\n" for l in got))
+            cookies = {}
+            try:
+                for cctx in set(x[2] for x in ch):
+                    for ln in open(os.path.join(home, ".dbus-keyrings", cctx.decode())):
+                        f = ln.split()
+                        if len(f) == 3:
+                            cookies[int(f[0])] = f[2]
+            except OSError:
+                pass
+            env["steps"] = [x for dd in sent for x in (("F", dd), ("S", None))]
+            ml = model_line(env, {"fed": [], "steps": [], "end": {"keyfile": "-"}}, asserts)[0]
+            ml = re.sub(r" best=\S+", " best=" + ("/".join(str(x[0]) for x in ch) or "-"), ml)
+            ml = re.sub(r" chals=\S+", " chals=" + ("/".join(x[1] for x in ch) or "-"), ml)
+            ml = re.sub(r" cookies=\S+", " cookies=" + ("/".join("%d:%s" % kv for kv in sorted(cookies.items())) or "-"), ml)
+            mres = vlib.run_one(info["model_auth"], ml)[0]
+            pm = parse_impl(mres)
+            mlines = produced_output(env, pm).split(b"\r\n")[:-1]
+            canon = lambda ls: [b"OK" if l.startswith(b"OK ") else (b"ERROR" if l.startswith(b"ERROR") else l) for l in ls]
+            replay = {"leg": "daemon", "script": name, "flavour": fl, "sent": [x.hex() for x in sent], "got": [x.decode("latin-1") for x in got], "model_input": ml, "model": mres}
+            if canon(got) != canon(mlines):
+                rep.violation("daemon handshake %s: answers %s, model %s" % (name, canon(got)[-6:], canon(mlines)[-6:]), replay)
+                sk.close()
+                continue
+            end = pm["end"]
+            uid_granted = None if end["id"] in ("N",) or end["id"].split("/")[0] == "-" else int(end["id"].split("/")[0])
+            model_auth = end["rc"] == "A"
+            admitted = model_auth and (uid_granted is not None or fl == "anon")     # Auth.Transport.admit with the bus policy allowing the bus's own uid
+            # is a message answered?
+            answered = False
+            creds = None
+            try:
+                sk.sendall(hello)
+                sk.settimeout(3.0 if admitted else 0.6)
+                buf = unhx(end["unused"] if end.get("unused") not in (None, "N") else "-") * 0
+                data = b""
+                while True:
+                    try:
+                        dd = sk.recv(65536)
+                    except (socket.timeout, OSError):
+                        break
+                    if not dd:
+                        eof = True
+                        break
+                    data += dd
+                    mm, nn = rawbus.parse_message(bytearray(data))
+                    if mm is not None:
+                        answered = mm.mtype == rawbus.METHOD_RETURN
+                        break
+            except OSError:
+                eof = True
+            sk.close()
+            if answered != admitted:
+                rep.violation("daemon %s (%s): a Hello sent after the handshake was %sanswered, but the handshake %s"
+                              % (name, fl, "" if answered else "not ", "ended authenticated and admitted" if admitted else "did not authenticate an admissible identity (model end %s id %s)" % (end["rc"], end["id"])), replay)
+                continue
+            n_ok += 1
+        # identity seen by the application: GetConnectionCredentials on a valid EXTERNAL / ANONYMOUS / cookie connection
+        for fl, first, want_uid in (("default", b"AUTH EXTERNAL " + h(str(PUID)) + b"\r\n", PUID), ("anon", b"AUTH ANONYMOUS\r\n", None)):
+            c = rawbus.RawConn(daemons[fl].address, auth=False)
+            c.sock.sendall(b"\0" + first)
+            line = c._readline()
+            c.sock.sendall(b"BEGIN\r\n")
+            r = c.hello()
+            if r is None or r.mtype != rawbus.METHOD_RETURN:
+                rep.violation("daemon (%s): Hello after a valid %r exchange not answered (%r)" % (fl, first, line), {"leg": "daemon", "flavour": fl})
+                continue
+            cr = c.call("GetConnectionCredentials", "s", (c.unique,))
+            d = dict(cr.body[0]) if cr is not None and cr.mtype == rawbus.METHOD_RETURN else {}
+            got_uid = d.get("UnixUserID")
+            got_uid = got_uid.val if hasattr(got_uid, "val") else got_uid
+            got_pid = d.get("ProcessID")
+            got_pid = got_pid.val if hasattr(got_pid, "val") else got_pid
+            if got_uid != want_uid or got_pid != os.getpid():
+                rep.violation("daemon (%s): identity after %r is uid=%r pid=%r, the mechanism established uid=%r pid=%r" % (fl, first, got_uid, got_pid, want_uid, os.getpid()),
+                              {"leg": "daemon", "flavour": fl, "credentials": repr(d)})
+            else:
+                n_ok += 1
+            c.close()
+        # the assertion class against a daemon of its own
+        if asserts:
+            d = rawbus.Daemon(info["daemon"])
+            daemons["abort"] = d
+            sk = socket.socket(socket.AF_UNIX, socket.SOCK_STREAM)
+            sk.connect(d.sock)
+            sk.sendall(b"\0AUTH \n\r\n")
+            lines, rest, eof = read_lines(sk, 1, 3.0)
+            sk.close()
+            t_end = time.time() + 5
+            while d.alive() and time.time() < t_end:
+                time.sleep(0.01)
+            if not d.alive() and ASSERT_TEXT in d.stderr() and "F08a" in known:
+                rep.known(known["F08a"], "daemon: \\0AUTH \\n\\r\\n")
+                stats["F08a"] = stats.get("F08a", 0) + 1
+            elif not d.alive():
+                rep.violation("daemon died on `AUTH \\n`: %s" % d.stderr()[-600:], {"leg": "daemon", "sent": b"\0AUTH \n\r\n".hex()})
+            else:
+                rep.violation("model predicts the skip_blank assertion for `AUTH \\n` but the daemon survived (answer %r)" % lines,
+                              {"leg": "daemon", "names": "correspondence (abort class) daemon vs Auth.Server.skip_blank"}, found_input=False)
+    finally:
+        for fl, d in daemons.items():
+            rc, err = d.stop()
+            if fl != "abort" and (rc not in (0, -15) or "ERROR: AddressSanitizer" in err or "runtime error" in err):
+                rep.violation("daemon (%s) exited with %s / sanitizer output: %s" % (fl, rc, err[-800:]), {"leg": "daemon", "flavour": fl, "stderr": err[-3000:]})
+        shutil.rmtree(home, ignore_errors=True)
+    stats["daemon_scripts"] = len(scripts) + 2
+    stats["daemon_ok"] = n_ok
+
+
+def gen_aux(rnd, tier):
+    """SHA-1, hex decoding and uid parsing: library vs model vs an independent implementation"""
+    lines, expect = [], []
+    for n in list(range(0, 200)) + [255, 256, 257, 1000, 4096]:
+        b = bytes(rnd.randrange(256) for _ in range(n))
+        lines.append(("sha1", b))
+    for _ in range(300 if tier == "quick" else 5000):
+        n = rnd.choice((0, 1, 2, 3, 4, 7, 8, 20))
+        lines.append(("hexdec", bytes(rnd.choice(b"0123456789abcdefABCDEFg zG\x00") for _ in range(n))))
+    for s in UIDSTRS:
+        lines.append(("uidstr", s))
+    for _ in range(300 if tier == "quick" else 5000):
+        n = rnd.choice((1, 2, 3, 5, 20, 21))
+        lines.append(("uidstr", bytes(rnd.choice(b"0123456789 +-xXabfF\t\n") for _ in range(n))))
+    return lines
+
+
+def run_aux(ctx, stats):
+    rep, tier, info = ctx["rep"], ctx["tier"], ctx["info"]
+    rnd = random.Random(ctx["seed"] + 3)
+    cases = [(k, b) for (k, b) in gen_aux(rnd, tier) if b"\x00" not in b or k != "uidstr" or True]
+    impl, icr = vlib.run_lines(info["auth_h"], ["%s %s" % (k, hx(b)) for k, b in cases])
+    model, mcr = vlib.run_lines(info["model_auth"], ["%sm %s" % (k, hx(b)) for k, b in cases])
+    for line, err in icr:
+        rep.violation("implementation crashed / sanitizer report on input `%s`: %s" % (line[:300], err[-700:]), {"impl_input": line, "stderr": err})
+    for (k, b), i, m in zip(cases, impl, model):
+        if i == "!CRASH":
+            continue
+        if k == "sha1":
+            ref = hashlib.sha1(b).hexdigest()
+            lib, mine = i.split()
+            if lib != ref:
+                rep.violation("_dbus_sha_compute(%s) = %s, SHA-1 is %s" % (hx(b)[:80], lib, ref), {"cmd": "sha1", "input": hx(b), "impl": i})
+            elif mine != ref or m != ref:
+                rep.violation("SHA-1 of %s: harness %s model %s reference %s" % (hx(b)[:80], mine, m, ref),
+                              {"cmd": "sha1", "input": hx(b), "names": "correspondence Auth.Sha1.sha1 / harness my_sha1 vs hashlib"}, found_input=False)
+        elif i != m:
+            rep.violation("%s %s: implementation `%s`, model `%s`" % (k, hx(b), i, m),
+                          {"cmd": k, "input": hx(b), "impl": i, "model": m, "names": "correspondence auth_h/%s vs Auth.Server" % k}, found_input=False)
+    stats["aux"] = len(cases)
+
+
+def run(ctx):
+    rep, tier, info = ctx["rep"], ctx["tier"], ctx["info"]
+    rnd = random.Random(ctx["seed"])
+    known = load_known()
+    stats = {}
+    cases = []
+    for f in sorted(glob.glob(os.path.join(vlib.VERIF, "corpus", "C08", "*.json"))):
+        for c in json.load(open(f)):
+            c["steps"] = [tuple((unhx(x) if (i in (1, 2) and s[0] in "FR") else x) for i, x in enumerate(s)) for s in c["steps"]]
+            c["steps"] = [(s[0], None) if s[0] == "S" and s[1] in (None, "*") else s for s in c["steps"]]
+            c["ctx"] = None if c.get("ctx") is None else unhx(c["ctx"])
+            c["keys"] = [tuple(k) for k in c.get("keys", [])]
+            c.setdefault("tag", "corpus")
+            cases.append(c)
+    cases += gen_identity(rnd, tier) + gen_cookie(rnd, tier) + gen_boundary(rnd, tier) + gen_crashy(rnd, tier) + gen_chunkings(rnd, tier)
+    cases += gen_exhaustive(tier) + gen_random(rnd, tier)
+    t0 = time.time()
+    dist, nontrivial, nrun = run_leg1(ctx, cases, known, stats)
+    t1 = time.time()
+    run_aux(ctx, stats)
+    t2 = time.time()
+    run_leg2(ctx, known, stats)
+    t3 = time.time()
+    sample_idx = list(range(0, len(cases), max(1, len(cases) // 10)))[:10]
+    rep.coverage.update({
+        "evaluations": nrun + stats.get("aux", 0) + stats.get("daemon_scripts", 0),
+        "distinct_nontrivial": len(nontrivial),
+        "rule": "in-process: corpus, identity strings (%d uid spellings x socket uids, both as initial response and as DATA), cookie exchanges "
+                "(7 keyring contents x 3 directory states x 6 response variants x 4 separators, wrong secrets, contexts, retry / OK-CANCEL-other-mechanism orders), "
+                "buffer caps (lines of 16383..16386 bytes in 3 chunkings, 600..700 unanswered replies), 4..8 rejections by 6 causes, bytes around BEGIN, "
+                "every 2-cut of 5 scripts, all command sequences up to length %d over a 16-command alphabet in %d environments, %d random scripts "
+                "(rich alphabet, random chunking and write-out); non-trivial = ends authenticated, or a distinct (line sequence, mechanism set) judged by the specification oracle"
+                % (len(UIDSTRS), 3 if tier == "quick" else 4, len(ENVS), 2500 if tier == "quick" else 120000),
+        "samples": [{"input": impl_line(cases[i])[:400]} for i in sample_idx],
+        "input_distribution": dist,
+        "traces_validated_against_impl": nrun,
+        "spec_oracle_evaluated": stats.get("spec_checked", 0),
+        "disagreements_checked": stats.get("disagree", 0),
+        "single_process_cases": stats.get("single", 0),
+        "known_finding_hits": {k: v for k, v in stats.items() if k.startswith("F08")},
+        "daemon_scripts": stats.get("daemon_scripts", 0), "daemon_scripts_consistent": stats.get("daemon_ok", 0),
+        "aux_cases": stats.get("aux", 0),
+        "seconds": {"in_process": round(t1 - t0, 1), "aux": round(t2 - t1, 1), "daemon": round(t3 - t2, 1)},
+        "exhaustive": False,
+        "explanation": "theorems hold for every byte sequence, chunking and environment of the model; the model is tied to dbus/dbus-auth.c by running both on the "
+                       "same bytes with the environment the implementation showed (challenges, keyring) and comparing all output after every step, the end state, "
+                       "the identity and the unused bytes; the extracted specification is evaluated on every case below the buffer cap",
+    })
+    rep.assumptions = [
+        "model coq/Auth/Server.v is hand-written after dbus/dbus-auth.c; the three state-handler switches, command and mechanism tables, max_failures, MAX_BUFFER, "
+        "N_CHALLENGE_BYTES and all protocol words are regenerated from the C source on every run (tools/gen/auth.py)",
+        "allocation failure is not modelled; the keyring file handling (dbus-keyring.c), the user database and the random source are environment parameters of the model, "
+        "instantiated per case with what the implementation showed; SHA-1 (Auth/Sha1.v) is compared with _dbus_sha_compute and hashlib on %d inputs, not proved" % 205,
+        "_dbus_auth_set_context keeps the tail of the default context (dead API, not reachable through a DBusServer); the harness mirrors this when naming the keyring file",
+        "transport layer (Auth/Transport.v) is checked against the daemon only at the level: answers, is Hello answered, GetConnectionCredentials",
+    ]
